@@ -957,3 +957,249 @@ Proof.
   rewrite E2. rewrite <- Eh in E1. rewrite !ip4_emit_put16 in E1. rewrite Sp in E1.
   injection E1 as E1 _. subst ck'. rewrite G, ck_eqb_refl. reflexivity.
 Qed.
+
+(* ------------------------------------------------------------------ a flipped bit is reported *)
+Lemma flip_invalid_id : forall W pk off j d, sumlike W ->
+  (S off < length pk)%nat -> (j < length pk)%nat -> (1 <= d <= 128 \/ -128 <= d <= -1) ->
+  let pk' := upd pk j (nthZ pk j + d) in
+  0 <= W (put16 pk off 0) < M32 -> 0 <= W (put16 pk' off 0) < M32 ->
+  get16 pk off = FoldChecksum (W (put16 pk off 0) mod M32) ->
+  (FoldChecksum (W (put16 pk' off 0) mod M32) =? get16 pk' off) = false.
+Proof.
+  intros W pk off j d SW L Lj D pk' B B' G.
+  destruct (flip_generic W pk off j d SW L Lj D B B') as [[E1 E2]|[E1 E2]]; fold pk' in E1, E2; apply Z.eqb_neq; lia.
+Qed.
+
+Definition udpmap (x : Z) : Z := if x =? 0 then 65535 else x.
+
+Lemma flip_invalid_udp : forall W pk off j d, sumlike W ->
+  (S off < length pk)%nat -> (j < length pk)%nat -> (1 <= d <= 128 \/ -128 <= d <= -1) ->
+  let pk' := upd pk j (nthZ pk j + d) in
+  0 < W (put16 pk off 0) < M32 -> 0 < W (put16 pk' off 0) < M32 ->
+  get16 pk off = udpmap (FoldChecksum (W (put16 pk off 0) mod M32)) ->
+  (udpmap (FoldChecksum (W (put16 pk' off 0) mod M32)) =? get16 pk' off) = false.
+Proof.
+  intros W pk off j d SW L Lj D pk' B B' G.
+  assert (B0 : 0 <= W (put16 pk off 0) < M32) by lia.
+  assert (B0' : 0 <= W (put16 pk' off 0) < M32) by lia.
+  destruct (flip_generic W pk off j d SW L Lj D B0 B0') as [[E1 E2]|[E1 E2]]; fold pk' in E1, E2; apply Z.eqb_neq.
+  - rewrite E1. lia.
+  - rewrite E2, G. rewrite !fold_wide in * by lia. unfold udpmap, oc in *.
+    repeat match goal with |- context [?a =? ?b] => destruct (Z.eqb_spec a b) end; lia.
+Qed.
+
+Lemma tcp_bitflip : forall p bs ck pk i r e, pseudo_ok p -> len_ok p bs -> bytes_ok bs -> (20 <= length bs)%nat ->
+  Z.of_nat (length bs) <= 131034 ->
+  tcp_emit p bs = Ok (ck, pk) -> (i < 8 * length pk)%nat -> tcp_decode (flip_bit pk i) = Ok (r, e) ->
+  tcp_verify p (flip_bit pk i) =
+    Ok {| v_valid := false; v_correct := reference p IPProtocolTCP (put16 (flip_bit pk i) 16 0); v_actual := get16 (flip_bit pk i) 16 |}.
+Proof.
+  intros p bs ck pk i r e Hp Hl H L Lb Em Li De.
+  assert (Hpr : 0 <= IPProtocolTCP < 256) by (unfold IPProtocolTCP; lia).
+  pose proof (tcp_emit_spec p bs Hp Hl H L) as Sp. cbv zeta in Sp.
+  set (ck0 := FoldChecksum (wide p IPProtocolTCP (put16 bs 16 0) mod M32)) in *.
+  assert (Rg : 0 <= ck0 <= 65535) by (apply fold_range; unfold M32; lia).
+  rewrite Sp in Em. injection Em as Eck Epk. subst ck.
+  assert (Lpk : length pk = length bs) by (subst pk; rewrite !put16_length; reflexivity).
+  assert (Hpk : bytes_ok pk) by (subst pk; repeat apply bytes_ok_put16; auto; lia).
+  assert (Z0 : put16 pk 16 0 = put16 bs 16 0) by (subst pk; rewrite !put16_put16; reflexivity).
+  assert (G : get16 pk 16 = FoldChecksum (wide p IPProtocolTCP (put16 pk 16 0) mod M32)).
+  { rewrite Z0. subst pk. apply get16_put16; [rewrite put16_length|]; lia. }
+  rewrite Lpk in Li. rewrite <- Lpk in Li.
+  destruct (flip_bit_spec pk i Hpk Li) as (d & Ef & Lj & Rb & Dd). rewrite Ef in *.
+  set (pk' := upd pk (i / 8) (nthZ pk (i / 8) + d)) in *.
+  assert (Lpk' : length pk' = length bs) by (unfold pk'; rewrite upd_length; exact Lpk).
+  assert (Hpk' : bytes_ok pk') by (unfold pk'; apply bytes_ok_upd; [exact Hpk|unfold byte_ok; lia]).
+  unfold tcp_verify. rewrite De. cbn [obind]. apply tcp_decode_inv in De. destruct De as (-> & -> & _).
+  assert (Hl' : len_ok p pk') by (unfold len_ok in *; rewrite Lpk'; exact Hl).
+  destruct (tcp_verify_core p pk' Hp Hl' Hpk' ltac:(lia)) as (ck' & out & E1 & _ & E2).
+  rewrite E2. pose proof (tcp_emit_spec p pk' Hp Hl' Hpk' ltac:(lia)) as Sp'. cbv zeta in Sp'.
+  rewrite Sp' in E1. injection E1 as E1 _. subst ck'.
+  assert (B : 0 <= wide p IPProtocolTCP (put16 pk 16 0) < M32).
+  { apply wide_nowrap; auto. apply bytes_ok_put16; auto; lia. rewrite put16_length; lia. }
+  assert (B' : 0 <= wide p IPProtocolTCP (put16 pk' 16 0) < M32).
+  { apply wide_nowrap; auto. apply bytes_ok_put16; auto; lia. rewrite put16_length; lia. }
+  pose proof (flip_invalid_id (wide p IPProtocolTCP) pk 16 (i / 8)%nat d (wide_sumlike p IPProtocolTCP Hp) ltac:(lia) Lj Dd B B' G) as FI. cbv zeta in FI. fold pk' in FI. rewrite FI.
+  rewrite fold_reference; auto.
+  - apply bytes_ok_put16; auto; lia.
+  - rewrite put16_length; lia.
+Qed.
+
+Lemma icmp6_bitflip : forall p bs ck pk i r e, pseudo_ok p -> len_ok p bs -> bytes_ok bs -> (4 <= length bs)%nat ->
+  Z.of_nat (length bs) <= 131034 ->
+  icmp6_emit p bs = Ok (ck, pk) -> (i < 8 * length pk)%nat -> icmp6_decode (flip_bit pk i) = Ok (r, e) ->
+  icmp6_verify p (flip_bit pk i) =
+    Ok {| v_valid := false; v_correct := reference p IPProtocolICMPv6 (put16 (flip_bit pk i) 2 0); v_actual := get16 (flip_bit pk i) 2 |}.
+Proof.
+  intros p bs ck pk i r e Hp Hl H L Lb Em Li De.
+  assert (Hpr : 0 <= IPProtocolICMPv6 < 256) by (unfold IPProtocolICMPv6; lia).
+  pose proof (icmp6_emit_spec p bs Hp Hl H L) as Sp. cbv zeta in Sp.
+  set (ck0 := FoldChecksum (wide p IPProtocolICMPv6 (put16 bs 2 0) mod M32)) in *.
+  assert (Rg : 0 <= ck0 <= 65535) by (apply fold_range; unfold M32; lia).
+  rewrite Sp in Em. injection Em as Eck Epk. subst ck.
+  assert (Lpk : length pk = length bs) by (subst pk; rewrite !put16_length; reflexivity).
+  assert (Hpk : bytes_ok pk) by (subst pk; repeat apply bytes_ok_put16; auto; lia).
+  assert (Z0 : put16 pk 2 0 = put16 bs 2 0) by (subst pk; rewrite !put16_put16; reflexivity).
+  assert (G : get16 pk 2 = FoldChecksum (wide p IPProtocolICMPv6 (put16 pk 2 0) mod M32)).
+  { rewrite Z0. subst pk. apply get16_put16; [rewrite put16_length|]; lia. }
+  rewrite Lpk in Li. rewrite <- Lpk in Li.
+  destruct (flip_bit_spec pk i Hpk Li) as (d & Ef & Lj & Rb & Dd). rewrite Ef in *.
+  set (pk' := upd pk (i / 8) (nthZ pk (i / 8) + d)) in *.
+  assert (Lpk' : length pk' = length bs) by (unfold pk'; rewrite upd_length; exact Lpk).
+  assert (Hpk' : bytes_ok pk') by (unfold pk'; apply bytes_ok_upd; [exact Hpk|unfold byte_ok; lia]).
+  unfold icmp6_verify. rewrite De. cbn [obind]. apply icmp6_decode_inv in De. destruct De as (-> & -> & _).
+  assert (Hl' : len_ok p pk') by (unfold len_ok in *; rewrite Lpk'; exact Hl).
+  destruct (icmp6_verify_core p pk' Hp Hl' Hpk' ltac:(lia)) as (ck' & out & E1 & _ & E2).
+  rewrite E2. pose proof (icmp6_emit_spec p pk' Hp Hl' Hpk' ltac:(lia)) as Sp'. cbv zeta in Sp'.
+  rewrite Sp' in E1. injection E1 as E1 _. subst ck'.
+  assert (B : 0 <= wide p IPProtocolICMPv6 (put16 pk 2 0) < M32).
+  { apply wide_nowrap; auto. apply bytes_ok_put16; auto; lia. rewrite put16_length; lia. }
+  assert (B' : 0 <= wide p IPProtocolICMPv6 (put16 pk' 2 0) < M32).
+  { apply wide_nowrap; auto. apply bytes_ok_put16; auto; lia. rewrite put16_length; lia. }
+  pose proof (flip_invalid_id (wide p IPProtocolICMPv6) pk 2 (i / 8)%nat d (wide_sumlike p IPProtocolICMPv6 Hp) ltac:(lia) Lj Dd B B' G) as FI. cbv zeta in FI. fold pk' in FI. rewrite FI.
+  rewrite fold_reference; auto.
+  - apply bytes_ok_put16; auto; lia.
+  - rewrite put16_length; lia.
+Qed.
+
+(* UDP: as above unless the stored value has become 0 ("no checksum") or the Length field now
+   selects a different region *)
+Lemma udp_bitflip : forall p bs ck pk i e, pseudo_ok p -> len_ok p bs -> bytes_ok bs -> (8 <= length bs)%nat ->
+  Z.of_nat (length bs) <= 131034 ->
+  udp_emit p bs = Ok (ck, pk) -> (i < 8 * length pk)%nat ->
+  udp_decode (flip_bit pk i) = Ok (flip_bit pk i, e) -> get16 (flip_bit pk i) 6 <> 0 ->
+  udp_verify p (flip_bit pk i) =
+    Ok {| v_valid := false; v_correct := udpmap (reference p IPProtocolUDP (put16 (flip_bit pk i) 6 0));
+          v_actual := get16 (flip_bit pk i) 6 |}.
+Proof.
+  intros p bs ck pk i e Hp Hl H L Lb Em Li De Nz.
+  assert (Hpr : 0 < IPProtocolUDP < 256) by (unfold IPProtocolUDP; lia).
+  pose proof (udp_emit_spec p bs Hp Hl H L) as Sp. cbv zeta in Sp.
+  set (f0 := FoldChecksum (wide p IPProtocolUDP (put16 bs 6 0) mod M32)) in *.
+  assert (Rf : 0 <= f0 <= 65535) by (apply fold_range; unfold M32; lia).
+  fold (udpmap f0) in Sp.
+  assert (Rg : 1 <= udpmap f0 <= 65535) by (unfold udpmap; destruct (Z.eqb_spec f0 0); lia).
+  rewrite Sp in Em. injection Em as Eck Epk. subst ck.
+  assert (Lpk : length pk = length bs) by (subst pk; rewrite !put16_length; reflexivity).
+  assert (Hpk : bytes_ok pk) by (subst pk; repeat apply bytes_ok_put16; auto; lia).
+  assert (Z0 : put16 pk 6 0 = put16 bs 6 0) by (subst pk; rewrite !put16_put16; reflexivity).
+  assert (G : get16 pk 6 = udpmap (FoldChecksum (wide p IPProtocolUDP (put16 pk 6 0) mod M32))).
+  { rewrite Z0. fold f0. subst pk. apply get16_put16; [rewrite put16_length|]; lia. }
+  destruct (flip_bit_spec pk i Hpk Li) as (d & Ef & Lj & Rb & Dd). rewrite Ef in *.
+  set (pk' := upd pk (i / 8) (nthZ pk (i / 8) + d)) in *.
+  assert (Lpk' : length pk' = length bs) by (unfold pk'; rewrite upd_length; exact Lpk).
+  assert (Hpk' : bytes_ok pk') by (unfold pk'; apply bytes_ok_upd; [exact Hpk|unfold byte_ok; lia]).
+  unfold udp_verify. rewrite De. cbn [obind]. apply udp_decode_inv in De. destruct De as (_ & -> & _).
+  assert (Hl' : len_ok p pk') by (unfold len_ok in *; rewrite Lpk'; exact Hl).
+  destruct (udp_verify_core p pk' Hp Hl' Hpk' ltac:(lia)) as (ck' & out & E1 & _ & E2).
+  rewrite E2. pose proof (udp_emit_spec p pk' Hp Hl' Hpk' ltac:(lia)) as Sp'. cbv zeta in Sp'.
+  rewrite Sp' in E1. injection E1 as E1 _. subst ck'.
+  assert (B : 0 < wide p IPProtocolUDP (put16 pk 6 0) < M32).
+  { split; [apply wide_positive; auto; [apply bytes_ok_put16; auto; lia|unfold len_ok in *; rewrite put16_length, Lpk; exact Hl]|].
+    apply wide_nowrap; auto; [lia|apply bytes_ok_put16; auto; lia|rewrite put16_length; lia]. }
+  assert (B' : 0 < wide p IPProtocolUDP (put16 pk' 6 0) < M32).
+  { split; [apply wide_positive; auto; [apply bytes_ok_put16; auto; lia|unfold len_ok in *; rewrite put16_length, Lpk'; exact Hl]|].
+    apply wide_nowrap; auto; [lia|apply bytes_ok_put16; auto; lia|rewrite put16_length; lia]. }
+  fold (udpmap (FoldChecksum (wide p IPProtocolUDP (put16 pk' 6 0) mod M32))).
+  pose proof (flip_invalid_udp (wide p IPProtocolUDP) pk 6 (i / 8)%nat d (wide_sumlike p IPProtocolUDP Hp) ltac:(lia) Lj Dd B B' G) as FI. cbv zeta in FI. fold pk' in FI. rewrite FI.
+  assert (Ez : (get16 pk' 6 =? 0) = false) by (apply Z.eqb_neq; exact Nz). rewrite Ez. cbn [orb].
+  rewrite fold_reference; auto; [lia|apply bytes_ok_put16; auto; lia|rewrite put16_length; lia].
+Qed.
+
+Lemma icmp4_bitflip : forall bs ck pk i r e, bytes_ok bs -> (8 <= length bs)%nat -> Z.of_nat (length bs) <= 131074 ->
+  icmp4_emit bs = Ok (ck, pk) -> (i < 8 * length pk)%nat -> icmp4_decode (flip_bit pk i) = Ok (r, e) ->
+  icmp4_verify (flip_bit pk i) =
+    Ok {| v_valid := false; v_correct := rfc1071 (put16 (flip_bit pk i) 2 0); v_actual := get16 (flip_bit pk i) 2 |}.
+Proof.
+  intros bs ck pk i r e H L Lb Em Li De.
+  pose proof (icmp4_emit_spec bs H L) as Sp. cbv zeta in Sp.
+  set (ck0 := FoldChecksum (wordsum (put16 bs 2 0) mod M32)) in *.
+  assert (Rg : 0 <= ck0 <= 65535) by (apply fold_range; unfold M32; lia).
+  rewrite Sp in Em. injection Em as Eck Epk. subst ck.
+  assert (Lpk : length pk = length bs) by (subst pk; rewrite !put16_length; reflexivity).
+  assert (Hpk : bytes_ok pk) by (subst pk; repeat apply bytes_ok_put16; auto; lia).
+  assert (Z0 : put16 pk 2 0 = put16 bs 2 0) by (subst pk; rewrite !put16_put16; reflexivity).
+  assert (G : get16 pk 2 = FoldChecksum (wordsum (put16 pk 2 0) mod M32)).
+  { rewrite Z0. subst pk. apply get16_put16; [rewrite put16_length|]; lia. }
+  destruct (flip_bit_spec pk i Hpk Li) as (d & Ef & Lj & Rb & Dd). rewrite Ef in *.
+  set (pk' := upd pk (i / 8) (nthZ pk (i / 8) + d)) in *.
+  assert (Lpk' : length pk' = length bs) by (unfold pk'; rewrite upd_length; exact Lpk).
+  assert (Hpk' : bytes_ok pk') by (unfold pk'; apply bytes_ok_upd; [exact Hpk|unfold byte_ok; lia]).
+  unfold icmp4_verify. rewrite De. cbn [obind]. apply icmp4_decode_inv in De. destruct De as (-> & -> & _).
+  destruct (icmp4_verify_core pk' Hpk' ltac:(lia)) as (ck' & out & E1 & _ & E2).
+  rewrite E2. pose proof (icmp4_emit_spec pk' Hpk' ltac:(lia)) as Sp'. cbv zeta in Sp'.
+  rewrite Sp' in E1. injection E1 as E1 _. subst ck'.
+  assert (B : 0 <= wordsum (put16 pk 2 0) < M32).
+  { split; [apply wordsum_nonneg|apply nowrap_of_length]; try (apply bytes_ok_put16; auto; lia); rewrite put16_length; lia. }
+  assert (B' : 0 <= wordsum (put16 pk' 2 0) < M32).
+  { split; [apply wordsum_nonneg|apply nowrap_of_length]; try (apply bytes_ok_put16; auto; lia); rewrite put16_length; lia. }
+  pose proof (flip_invalid_id wordsum pk 2 (i / 8)%nat d wordsum_sumlike ltac:(lia) Lj Dd B B' G) as FI. cbv zeta in FI. fold pk' in FI. rewrite FI.
+  rewrite fold_reference_plain; auto; [apply bytes_ok_put16; auto; lia|rewrite put16_length; lia].
+Qed.
+
+(* GRE: as above when the flipped packet still carries the checksum-present flag *)
+Lemma gre_bitflip : forall bs ck pk i r e, bytes_ok bs -> (8 <= length bs)%nat -> 128 <= nthZ bs 0 ->
+  Z.of_nat (length bs) <= 131074 ->
+  gre_emit bs = Ok (Some ck, pk) -> (i < 8 * length pk)%nat -> gre_decode (flip_bit pk i) = Ok (r, e, true) ->
+  gre_verify (flip_bit pk i) =
+    Ok {| v_valid := false; v_correct := rfc1071 (put16 (flip_bit pk i) 4 0); v_actual := get16 (flip_bit pk i) 4 |}.
+Proof.
+  intros bs ck pk i r e H L C Lb Em Li De.
+  pose proof (gre_emit_spec bs H L C) as Sp. cbv zeta in Sp.
+  set (ck0 := FoldChecksum (wordsum (put16 bs 4 0) mod M32)) in *.
+  assert (Rg : 0 <= ck0 <= 65535) by (apply fold_range; unfold M32; lia).
+  rewrite Sp in Em. injection Em as Eck Epk. subst ck.
+  assert (Lpk : length pk = length bs) by (subst pk; rewrite !put16_length; reflexivity).
+  assert (Hpk : bytes_ok pk) by (subst pk; repeat apply bytes_ok_put16; auto; lia).
+  assert (Z0 : put16 pk 4 0 = put16 bs 4 0) by (subst pk; rewrite !put16_put16; reflexivity).
+  assert (G : get16 pk 4 = FoldChecksum (wordsum (put16 pk 4 0) mod M32)).
+  { rewrite Z0. subst pk. apply get16_put16; [rewrite put16_length|]; lia. }
+  destruct (flip_bit_spec pk i Hpk Li) as (d & Ef & Lj & Rb & Dd). rewrite Ef in *.
+  set (pk' := upd pk (i / 8) (nthZ pk (i / 8) + d)) in *.
+  assert (Lpk' : length pk' = length bs) by (unfold pk'; rewrite upd_length; exact Lpk).
+  assert (Hpk' : bytes_ok pk') by (unfold pk'; apply bytes_ok_upd; [exact Hpk|unfold byte_ok; lia]).
+  unfold gre_verify. rewrite De. cbn [obind]. apply gre_decode_inv in De. destruct De as (-> & EC & De).
+  destruct (De eq_refl) as (-> & _).
+  destruct (gre_verify_core pk' Hpk' ltac:(lia) ltac:(lia)) as (ck' & out & E1 & _ & E2).
+  rewrite E2. pose proof (gre_emit_spec pk' Hpk' ltac:(lia) ltac:(lia)) as Sp'. cbv zeta in Sp'.
+  rewrite Sp' in E1. injection E1 as E1 _. subst ck'.
+  assert (B : 0 <= wordsum (put16 pk 4 0) < M32).
+  { split; [apply wordsum_nonneg|apply nowrap_of_length]; try (apply bytes_ok_put16; auto; lia); rewrite put16_length; lia. }
+  assert (B' : 0 <= wordsum (put16 pk' 4 0) < M32).
+  { split; [apply wordsum_nonneg|apply nowrap_of_length]; try (apply bytes_ok_put16; auto; lia); rewrite put16_length; lia. }
+  pose proof (flip_invalid_id wordsum pk 4 (i / 8)%nat d wordsum_sumlike ltac:(lia) Lj Dd B B' G) as FI. cbv zeta in FI. fold pk' in FI. rewrite FI.
+  rewrite fold_reference_plain; auto; [apply bytes_ok_put16; auto; lia|rewrite put16_length; lia].
+Qed.
+
+(* IPv4 header: a flipped header bit is reported when the decoder still takes the same extent *)
+Lemma ip4_bitflip : forall hdr ck h i payload e, bytes_ok hdr -> (20 <= length hdr)%nat -> Z.of_nat (length hdr) <= 131074 ->
+  ip4_emit hdr = Ok (ck, h) -> (i < 8 * length h)%nat ->
+  ip4_decode (flip_bit h i ++ payload) = Ok (flip_bit h i, e) ->
+  ip4_verify (flip_bit h i ++ payload) =
+    Ok {| v_valid := false; v_correct := rfc1071 (put16 (flip_bit h i) 10 0); v_actual := get16 (flip_bit h i) 10 |}.
+Proof.
+  intros hdr ck pk i payload e H L Lb Em Li De.
+  pose proof (ip4_emit_spec hdr H L) as Sp. cbv zeta in Sp.
+  set (ck0 := FoldChecksum (wordsum (put16 hdr 10 0) mod M32)) in *.
+  assert (Rg : 0 <= ck0 <= 65535) by (apply fold_range; unfold M32; lia).
+  rewrite Sp in Em. injection Em as Eck Epk. subst ck.
+  assert (Lpk : length pk = length hdr) by (subst pk; rewrite !put16_length; reflexivity).
+  assert (Hpk : bytes_ok pk) by (subst pk; repeat apply bytes_ok_put16; auto; lia).
+  assert (Z0 : put16 pk 10 0 = put16 hdr 10 0) by (subst pk; rewrite !put16_put16; reflexivity).
+  assert (G : get16 pk 10 = FoldChecksum (wordsum (put16 pk 10 0) mod M32)).
+  { rewrite Z0. subst pk. apply get16_put16; [rewrite put16_length|]; lia. }
+  destruct (flip_bit_spec pk i Hpk Li) as (d & Ef & Lj & Rb & Dd). rewrite Ef in *.
+  set (pk' := upd pk (i / 8) (nthZ pk (i / 8) + d)) in *.
+  assert (Lpk' : length pk' = length hdr) by (unfold pk'; rewrite upd_length; exact Lpk).
+  assert (Hpk' : bytes_ok pk') by (unfold pk'; apply bytes_ok_upd; [exact Hpk|unfold byte_ok; lia]).
+  unfold ip4_verify. rewrite De. cbn [obind]. apply ip4_decode_inv in De. destruct De as (_ & -> & _).
+  destruct (ip4_verify_core pk' Hpk' ltac:(lia)) as (ck' & out & E1 & _ & E2).
+  rewrite E2. pose proof (ip4_emit_spec pk' Hpk' ltac:(lia)) as Sp'. cbv zeta in Sp'.
+  rewrite Sp' in E1. injection E1 as E1 _. subst ck'.
+  assert (B : 0 <= wordsum (put16 pk 10 0) < M32).
+  { split; [apply wordsum_nonneg|apply nowrap_of_length]; try (apply bytes_ok_put16; auto; lia); rewrite put16_length; lia. }
+  assert (B' : 0 <= wordsum (put16 pk' 10 0) < M32).
+  { split; [apply wordsum_nonneg|apply nowrap_of_length]; try (apply bytes_ok_put16; auto; lia); rewrite put16_length; lia. }
+  pose proof (flip_invalid_id wordsum pk 10 (i / 8)%nat d wordsum_sumlike ltac:(lia) Lj Dd B B' G) as FI. cbv zeta in FI. fold pk' in FI. rewrite FI.
+  rewrite fold_reference_plain; auto; [apply bytes_ok_put16; auto; lia|rewrite put16_length; lia].
+Qed.
